@@ -83,9 +83,14 @@ pub mod std {
                 Instant(crate::exec::now_ns())
             }
             pub fn checked_add(&self, d: Duration) -> Option<Instant> {
+                // like std on Linux (seconds are an i64): a duration whose seconds do not fit overflows
+                let now_secs = self.0 / 1_000_000_000;
+                if d.as_secs() > (i64::MAX as u64).saturating_sub(now_secs) {
+                    return None;
+                }
                 let n = d.as_nanos();
                 if n > (u64::MAX / 2) as u128 {
-                    // far future: saturate (std returns Some for any realistic duration)
+                    // representable for std, too far for the simulated clock: saturate (it can never be reached)
                     return Some(Instant(u64::MAX / 2));
                 }
                 self.0.checked_add(n as u64).map(Instant)
